@@ -568,6 +568,32 @@ Theorem c19_dump_adj_src_refines : forall analysis arch pid e pc,
 Proof. exact dump_adj_src_refines. Qed.
 Print Assumptions c19_dump_adj_src_refines.
 
+(* THE PROPERTY (c19_the_property above, clause by clause) for the flips computed by the COMPILED path — the function the
+   correspondence run executes and compares with process_minidump *)
+Theorem c19_the_property_src : forall analysis arch platform_id e pc l,
+  u64_recs l ->
+  0 <= er_address e < two64 -> 0 <= er_info1 e < two64 ->
+  (forall x id v, pc = Some x -> get_register x id = Some v -> 0 <= v < two64) ->
+  (forall x oa ai, analysis x = Some oa -> (exists a, oa_addresses oa = Some a /\ In ai a) -> 0 <= ai_addr ai < two64) ->
+  let c := dump_cpu arch in
+  let os := os_class (dump_os platform_id) in
+  let r := dump_reason arch platform_id e in
+  let address := dump_address arch platform_id e in
+  let flips := dump_pipeline_src analysis arch platform_id e pc (regions_of_info l) in
+  (forall f, In f flips ->
+     exists a j, examined_by analysis c os r address pc f a /\
+                 inaccessible (regions_of_info l) (memop_of_reason r) a /\
+                 br_lo (pipeline_br analysis c os r address pc) <= j < br_hi (pipeline_br analysis c os r address pc) /\
+                 f_addr f = Z.lxor a (2 ^ j) /\ 0 <= f_addr f < two64 /\
+                 (f_addr f = 0 \/
+                  exists base size prot, In (base, size, prot) l /\ size <> 0 /\ base + size < two64 /\
+                                         base <= f_addr f < base + size /\ info_allows (memop_of_reason r) prot = true) /\
+                 le_b32 (f32 0) (confidence (f_det f)) = true /\ le_b32 (confidence (f_det f)) (f32 F32_ONE_bits) = true) /\
+  (forall x oa, pc = Some x -> analysis x = Some oa -> has_null_flag oa -> flips = []) /\
+  (~ (arch = 9 \/ arch = 32770 \/ arch = 32772) -> flips = []).
+Proof. exact the_property_src. Qed.
+Print Assumptions c19_the_property_src.
+
 Example c19_nonvacuous_src :
   let rs := [region_of_info 140737488351232 4096 4] in
   let pc := nv_pc (140737488351232 + 281474976710656 - 8) in
